@@ -525,8 +525,24 @@ fn ref_norm(v: f64, range: Option<(f64, f64)>) -> (f64, f64) {
         return (0.0, 0.0);
     }
     let c = v.max(min).min(max);
-    let t = (c * 0.5 - min * 0.5) / (max * 0.5 - min * 0.5);
-    let t = t.max(0.0).min(1.0);
+    // (c - min) / (max - min) evaluated after an exact rescaling by a power of two that keeps
+    // every intermediate result in the normal range (no overflow for huge, no underflow for tiny ranges)
+    let big = min.abs().max(max.abs());
+    let k = if big < 2f64.powi(-500) {
+        2f64.powi(600)
+    } else if big > 2f64.powi(500) {
+        2f64.powi(-600)
+    } else {
+        1.0
+    };
+    let (c, min, max) = (c * k, min * k, max * k);
+    let t = if c >= max {
+        1.0
+    } else if c <= min {
+        0.0
+    } else {
+        ((c - min) / (max - min)).max(0.0).min(1.0)
+    };
     let eps = 3e-7 * t.abs() + 1e-30;
     ((t - eps).max(0.0), (t + eps).min(1.0))
 }
@@ -953,6 +969,10 @@ pub fn ops_for(rng: &mut Rng, file: &[u8], full: bool) -> Vec<String> {
 
 pub fn add_case(sink: &mut Sink, rng: &mut Rng, file: &[u8], tag: &str, full: bool) {
     let ops = ops_for(rng, file, full);
+    add_case_ops(sink, file, &ops, tag);
+}
+
+pub fn add_case_ops(sink: &mut Sink, file: &[u8], ops: &[String], tag: &str) {
     let line = case_line(file, &ops);
     let o: Vec<&str> = ops.iter().map(|s| s.as_str()).collect();
     let out = run_ops(file, &o);
@@ -981,6 +1001,139 @@ pub fn bundled_files(max_size: u64) -> Vec<(String, Vec<u8>)> {
     v
 }
 
+
+
+/// the operation list of `ops_for` with retries: every operation may be repeated immediately
+/// (the second attempt must behave like the first one on a fresh reader)
+pub fn ops_with_retries(rng: &mut Rng, file: &[u8]) -> Vec<String> {
+    let ops = ops_for(rng, file, false);
+    let mut out: Vec<String> = vec![];
+    let mut i = 0;
+    while i < ops.len() {
+        let n = match ops[i].as_str() {
+            "RAW" => 3,
+            "SIMPLE" => 4,
+            "BLOB" => 3,
+            _ => 1,
+        };
+        let one = &ops[i..(i + n).min(ops.len())];
+        out.extend(one.iter().cloned());
+        if rng.chance(1, 2) {
+            out.extend(one.iter().cloned());
+        }
+        i += n;
+    }
+    out
+}
+
+/// a copy of `file` with one byte altered in a page that holds no XML (so that the file still opens)
+pub fn damage_data_page(rng: &mut Rng, file: &[u8]) -> Option<Vec<u8>> {
+    if file.len() < 2048 || file.len() % 1024 != 0 {
+        return None;
+    }
+    let xml_off = u64::from_le_bytes(file[24..32].try_into().ok()?) as usize;
+    let first_xml_page = xml_off / 1024;
+    if first_xml_page == 0 {
+        return None;
+    }
+    let p = rng.below(first_xml_page as u64) as usize;
+    let pos = if p == 0 { 48 + rng.below(1024 - 48) as usize } else { p * 1024 + rng.below(1024) as usize };
+    let mut f = file.to_vec();
+    f[pos] ^= 1 << rng.below(8);
+    Some(f)
+}
+
+/// data types whose declared range is extreme (wider than f64::MAX, degenerate, tiny, 64 bit wide)
+fn stress_dt(rng: &mut Rng) -> DT {
+    let d = |x: f64| Some(x.to_bits());
+    let f = |x: f32| Some(x.to_bits());
+    match rng.below(14) {
+        0 => DT::F64(None, None),
+        1 => DT::F64(d(-1e308), d(1e308)),
+        2 => DT::F64(d(f64::MIN), d(f64::MAX)),
+        3 => DT::F64(d(0.0), d(5e-324)),
+        4 => DT::F64(d(1e300), d(1.0000001e300)),
+        5 => DT::F64(d(-3.5), d(-3.5)),
+        6 => DT::F32(None, None),
+        7 => DT::F32(f(f32::MIN), f(f32::MAX)),
+        8 => DT::F32(f(0.0), f(1.0e-45)),
+        9 => DT::I(i64::MIN, i64::MAX),
+        10 => DT::S(i64::MIN, i64::MAX, 1e290f64.to_bits(), 0f64.to_bits()),
+        11 => DT::S(-1000, 1000, 1e-300f64.to_bits(), 1e300f64.to_bits()),
+        12 => {
+            let v = rng.range(-5, 5);
+            DT::I(v, v)
+        }
+        _ => DT::I(0, 255),
+    }
+}
+
+fn stress_val(rng: &mut Rng, dt: &DT) -> Val {
+    match dt {
+        DT::F64(a, b) => {
+            let mut c = vec![f64::MAX, f64::MIN, 1e300, -1e300, 1e292, -1e292, 0.0, 1.0, 5e-324, -3.5];
+            for x in [a, b].into_iter().flatten() {
+                c.push(f64::from_bits(*x));
+            }
+            if let (Some(a), Some(b)) = (a, b) {
+                c.push(f64::from_bits(*a) / 2.0 + f64::from_bits(*b) / 2.0);
+            }
+            Val::D(rng.pick(&c).to_bits())
+        }
+        DT::F32(a, b) => {
+            let mut c = vec![f32::MAX, f32::MIN, 0.0, 1.0, 1.0e-45, 3.0e38, -3.0e38];
+            for x in [a, b].into_iter().flatten() {
+                c.push(f32::from_bits(*x));
+            }
+            Val::F(rng.pick(&c).to_bits())
+        }
+        DT::I(a, b) => Val::I(*rng.pick(&[*a, *b, a / 2 + b / 2, a.saturating_add(1).min(*b), b.saturating_sub(1).max(*a)])),
+        DT::S(a, b, ..) => Val::S(*rng.pick(&[*a, *b, a / 2 + b / 2, a.saturating_add(1).min(*b), b.saturating_sub(1).max(*a)])),
+    }
+}
+
+/// a program whose intensity and colour attributes sit at the extremes of what normalisation has to cope with
+pub fn norm_stress_program(rng: &mut Rng) -> Program {
+    let st = |n: &str, dt: DT| Rec { name: RName::Std(n.into()), dt };
+    let mut proto = vec![];
+    for n in ["cartesianX", "cartesianY", "cartesianZ"] {
+        proto.push(st(n, DT::F32(None, None)));
+    }
+    let with_i = rng.chance(3, 4);
+    if with_i {
+        proto.push(st("intensity", stress_dt(rng)));
+    }
+    if !with_i || rng.chance(1, 2) {
+        let same = rng.chance(1, 2);
+        let dt = stress_dt(rng);
+        for n in ["colorRed", "colorGreen", "colorBlue"] {
+            let d = if same { dt.clone() } else { stress_dt(rng) };
+            proto.push(st(n, d));
+        }
+    }
+    let mut body = vec![];
+    // optionally override the limits with values of the attribute's type (narrower, wider or reversed)
+    if rng.chance(1, 2) {
+        if let Some(r) = proto.iter().find(|r| r.name.is("intensity")) {
+            let (a, b) = (stress_val(rng, &r.dt), stress_val(rng, &r.dt));
+            body.push(PcStmt::Il(Some((Some(a), Some(b)))));
+        }
+    }
+    if rng.chance(1, 2) && proto.iter().any(|r| r.name.is("colorRed")) {
+        let mut l: [Option<Val>; 6] = Default::default();
+        for (k, n) in ["colorRed", "colorRed", "colorGreen", "colorGreen", "colorBlue", "colorBlue"].iter().enumerate() {
+            let r = proto.iter().find(|r| r.name.is(n)).unwrap();
+            l[k] = Some(stress_val(rng, &r.dt));
+        }
+        body.push(PcStmt::Cl(Some(l)));
+    }
+    for _ in 0..1 + rng.below(10) {
+        let p: Vec<Val> = proto.iter().map(|r| if r.name.is("cartesianX") || r.name.is("cartesianY") || r.name.is("cartesianZ") { Val::F(1.5f32.to_bits()) } else { stress_val(rng, &r.dt) }).collect();
+        body.push(PcStmt::P(p));
+    }
+    Program { guid: "norm-stress".into(), stmts: vec![Stmt::Pc { guid: "pc-stress".into(), proto, body, end: true }, Stmt::Fin] }
+}
+
 pub fn generate(sink: &mut Sink, seed: u64, thorough: bool) {
     let mut rng = Rng::new(seed ^ 0x4EAD);
     // 1. files written by the real writer from random programs
@@ -1000,6 +1153,23 @@ pub fn generate(sink: &mut Sink, seed: u64, thorough: bool) {
         }
         made += 1;
         add_case(sink, &mut rng, &run.file, "written_file", thorough);
+        // the same file with a damaged data page, every operation possibly retried (C17, C07)
+        if made % 3 == 0 {
+            if let Some(f) = damage_data_page(&mut rng, &run.file) {
+                let ops = ops_with_retries(&mut rng, &f);
+                add_case_ops(sink, &f, &ops, "damaged_file_with_retries");
+            }
+        }
+    }
+    // 1b. normalisation stress: attribute ranges and values at the extremes (C13)
+    for _ in 0..(if thorough { 400 } else { 60 }) {
+        let prog = norm_stress_program(&mut rng);
+        let dev = crate::dev::SimDev::new(vec![]);
+        let run = execute(&prog, &dev);
+        if run.panicked || run.results.last().map(|s| s != "ok").unwrap_or(true) {
+            continue;
+        }
+        add_case(sink, &mut rng, &run.file, "norm_stress_file", true);
     }
     // 2. bundled test data (other producers: E57 reference implementation, libE57Format, LAS converter)
     for (name, bytes) in bundled_files(if thorough { 800_000 } else { 60_000 }) {
